@@ -154,7 +154,7 @@ func ObserveOpen(path string, prof Profile, pageSize int, hashmap bool) (obs ope
 
 // CLI runs the bbolt command-line tool built from /repo.
 func CLI(timeout time.Duration, args ...string) (string, int) {
-	bin := filepath.Join(VerifRoot, "harness", "bin", "bbolt")
+	bin := filepath.Join(filepath.Dir(Self()), "bbolt")
 	cmd := exec.Command(bin, args...)
 	var sb strings.Builder
 	cmd.Stdout = &sb
